@@ -17,6 +17,9 @@ CLAIMED = {
  "C05": dict(engine="E1", design="§5 C05", technique="bounded exhaustive enumeration of type expressions, real pipeline + type-tree extractor vs structural/category reference model",
      text="All unary constructor chains (Vec, array, slice, Option, Box, &) of depth ≤ 2 (quick) / ≤ 4 (thorough) over 17 leaves, every smart-pointer name and path form, maps and user generics with chain arguments, const types; × 4 positions × 6 languages × 2 configurations × type-mapping tables (~1.3M executions thorough). The type text at the use site is parsed back to a tree and compared structurally; primitives are judged by JSON category and value range.",
      note="Trusted: target primitive ranges from language references; TypeScript optionality is judged by C04, not here."),
+ "C06": dict(engine="E3+E1", design="§5 C06", technique="TLA+/TLC protocol model with every maximal path replayed as a forced schedule on the real binary (hook trace must equal the model path); exhaustive arrival permutations, set partitions and hash iteration orders; byte-equality per equivalence class",
+     text="(1) every maximal path of the WalkCollect model (2 and 3 files; 94 paths) replayed on the hooks-on binary for single/multi mode and 2 (quick) / 6 (thorough) languages, with conformance of the event trace; (2) every arrival permutation of n ≤ 4 (quick) / ≤ 6 (thorough) files × single/multi × 6 languages; (3) all 52 set partitions of five items over files × arrival orders of the blocks; (4) thread counts 1..16; (5) same item name in two files; (6) in-process: every iteration order of the crate map and import sets for four multi-crate scenarios. All outputs of an equivalence class must be byte-identical.",
+     note="Interleavings inside ignore's work stealing and crossbeam's channel are not explored; one walker per file; all walkers hold their file before the first send. Hash orders are reached by re-creating collections until every permutation was witnessed (coverage counted)."),
  "C07": dict(engine="E1+S-cli", design="§5 C07", technique="exhaustive singles/pairs/triples over a grammar-edge alphabet run in-process under catch_unwind, plus process-level fault enumeration with a watchdog", category="model_checking",
      text="A baseline program plus every single edge symbol (≈100 symbols: container names without arguments, empty tuple structs/variants, odd attribute lists, underscore-only and non-ASCII identifiers under every rename_all rule, bare `use`, consts, odd serialized_as, #[typeshare] on unsupported item kinds …) at every position × 6 languages × single/multi × 3 configurations, every unordered pair and (thorough) triple; no execution may unwind. The real binary is then run under a watchdog on every symbol and on 17 file-level/argument faults × languages × modes: it must terminate with exit 0 and output, or a non-zero status and a diagnostic (naming the file for parse-stage failures), never panic or hang.",
      note="The alphabet is a fixed list; arbitrary Rust is not enumerable. Watchdog hits are re-run with a longer limit before they are believed. Error-path schedules are covered with C06's protocol model."),
@@ -71,8 +74,10 @@ def main():
       "setup_cmd":"./setup.sh",
       "hooks":{"guard":"--cfg typeshare_verif","enable":"RUSTFLAGS='--cfg typeshare_verif' cargo build -p typeshare-cli --features go,python --target-dir /verif/target/cli-verif",
                "baseline_off_cmd":"cd /repo && cargo nextest run --workspace --no-fail-fast --test-threads 8 --offline",
-               "source_commits":[],"add_only":True},
+               "source_commits":["9df0e9a","0d72a46"],"add_only":True},
       "engines":[
+        {"name":"E3","path":"/verif/models/WalkCollect.tla + /verif/mc/src/e3.rs","serves_properties":["C06","C07"],"kind_free_text":"TLA+ protocol model checked and dumped by TLC; every maximal path replayed as a forced schedule on the real binary through the cfg(typeshare_verif) hooks"},
+        {"name":"S-cli","path":"/verif/mc/src/cli.rs","serves_properties":["C06","C07","C08","C14","C17","C20"],"kind_free_text":"the real typeshare binary (hooks-on build) as a subprocess on scratch trees with a watchdog"},
         {"name":"E1","path":"/verif/mc/src/explore.rs","serves_properties":sorted(k for k,v in CLAIMED.items() if "E1" in v["engine"]),"kind_free_text":"stateless choice-sequence explorer (product / deviation-bounded), every case executed on the real code and judged by a reference model"},
       ],
       "checks":checks,
